@@ -1,0 +1,23 @@
+//go:build verif
+
+// Contracts for package engine, read by /verif/govc (contract-based deductive verification).
+// This file contains comments only and is compiled only under the build tag "verif".
+package engine
+
+//@ func limit(limit int, rows []*storage.Row) []*storage.Row
+//@   props C05 C18
+//@   pure
+//@   requires limit >= 0
+//@   ensures len(result) == (limit > len(rows) ? len(rows) : limit)
+//@   ensures forall i int :: 0 <= i && i < len(result) ==> result[i] == rows[i]
+
+//@ func offset(offset int, rows []*storage.Row) []*storage.Row
+//@   props C05 C18
+//@   pure
+//@   requires offset >= 0
+//@   ensures len(result) == (offset >= len(rows) ? 0 : len(rows) - offset)
+//@   ensures forall i int :: 0 <= i && i < len(result) ==> result[i] == rows[offset + i]
+
+//@ func parseSQL(q string) (interface{}, error)
+//@   props C09
+//@   loop 1 invariant tl.tokens == nil || fresh(tl.tokens)
